@@ -242,6 +242,9 @@ func VerifC08_CloseAfterBreak() {
 		return
 	}
 	verifReach("C08/close/started")
+	if verifTier() > 0 {
+		verifSchedBound(2) // thorough: every pair of preemptions
+	}
 	var toStep chan schema.Input
 	if withSignals {
 		toStep = make(chan schema.Input) // never closed by the caller (closing is only recommended)
